@@ -41,6 +41,20 @@ func c12cell() string {
 	return "x"
 }
 
+// c12wide: spellings at the limits of the numeric types and near-numbers.
+var c12wideCells = []string{"9223372036854775807", "9223372036854775808", "-9223372036854775808", "-9223372036854775809",
+	"99999999999999999999", "0000000000000000000001", "1e3", "0x10", "1_000", "Inf", "nan", "TRUE", "1.", "-", "+", " 1", "1E400", "4.9e-324", "0.1"}
+
+func c12wide() string {
+	k := vx.IntN(0, len(c12wideCells)-1)
+	for j := range c12wideCells {
+		if k == j {
+			return c12wideCells[j]
+		}
+	}
+	return ""
+}
+
 func c12allParse(cells []string, f func(string) bool) bool {
 	for _, c := range cells {
 		if !f(c) {
@@ -57,7 +71,16 @@ func VX_C12_infer() {
 	var a, b []string
 	doc := "a,b\n"
 	for r := 0; r < rows; r++ {
-		x, y := c12cell(), c12cell()
+		x, y := "", ""
+		if vx.HasParam("wide") {
+			// numeric limits: one such cell per row next to an ordinary cell in the same column
+			x, y = c12wide(), "1"
+			if r > 0 {
+				x, y = "7", c12wide()
+			}
+		} else {
+			x, y = c12cell(), c12cell()
+		}
 		a, b = append(a, x), append(b, y)
 		doc += x + "," + y + "\n"
 	}
@@ -177,6 +200,24 @@ func VX_C12_options() {
 		vx.Check(g.Err != nil, "a later read with the same declared values still rejects an undeclared cell")
 		vx.Check((h.Err == nil) == (c1 == "b" || c1 == "c"), "declared values accept exactly the declared cells")
 		vx.Check(len(vals) == 1 && len(vals["a"]) == 2 && vals["a"][0] == "b" && vals["a"][1] == "c", "the caller's map is not modified")
+	case "enum_option_reuse": // one option value (not only one map) used for several reads
+		vals := map[string][]string{"a": {"c", "b"}}
+		typ, ev := csv.Types(map[string]string{"a": "enum"}), csv.EnumValues(vals)
+		f := ReadCSV(strings.NewReader("a\nb\nc\n"), typ, ev)
+		g := ReadCSV(strings.NewReader("a\nzz\n"), typ, ev)
+		h := ReadCSV(strings.NewReader("a\n"+c1+"\nb\nc\n"), typ, ev)
+		vx.Check(f.Err == nil, "first read with declared values")
+		vx.Check(g.Err != nil, "a later read through the same option value still rejects an undeclared cell")
+		vx.Check((h.Err == nil) == (c1 == "b" || c1 == "c"), "the same option value accepts exactly the declared cells")
+		if h.Err == nil {
+			// declared order c < b also in the later read
+			srt := h.Sort(Order{Column: "a"})
+			v := srt.MustEnumView("a")
+			vx.Check(*v.ItemAt(0) == "c" && *v.ItemAt(2) == "b", "declared order is kept by a later read through the same option value")
+		}
+		k := ReadCSV(strings.NewReader("a,b\nb,1\n"), csv.Types(map[string]string{"a": "enum"}), csv.EnumValues(map[string][]string{"b": {"1"}}))
+		k2 := ReadCSV(strings.NewReader("a,b\nb,1\n"), typ, csv.EnumValues(map[string][]string{"a": {"b"}, "b": {"1"}}))
+		vx.Check(k.Err != nil && k2.Err != nil, "enum values for a column that is not an enum column are rejected")
 	case "missing_alias":
 		f := ReadCSV(strings.NewReader("a,\n"+c1+","+c2+"\n"), csv.MissingColumnNameAlias("m"), csv.Types(str))
 		vx.Check(f.Err == nil, "MissingColumnNameAlias: no error")
